@@ -9,10 +9,12 @@ use vcore::*;
 use wow_m2::{M2Converter, M2Model, M2Version};
 
 mod animfile;
+mod chain;
 mod cmp;
 mod emit;
 mod gen;
 mod indep;
+mod odd;
 mod repro;
 mod share;
 mod skinfile;
@@ -20,6 +22,12 @@ mod walker;
 
 #[global_allocator]
 static A: vcore::alloc::Counting = vcore::alloc::Counting;
+
+/// thorough tier: additional oracles on states reached by earlier operations (set in `build`)
+pub static DEEP: std::sync::atomic::AtomicBool = std::sync::atomic::AtomicBool::new(false);
+pub fn deep() -> bool {
+    DEEP.load(std::sync::atomic::Ordering::Relaxed)
+}
 
 // ------------------------------------------------------------------ library calls, guarded
 
@@ -367,6 +375,88 @@ fn api_roundtrip(r: &mut CaseResult, m: &M2Model, ver: M2Version) {
     byte_diff(r, "M2Converter::convert to the same version changes the written bytes", &w1, &wc2);
 }
 
+// ------------------------------------------------------------------ space "m2many" (thorough)
+
+/// Sections with many elements: one or two sites at the level "many" (17 or 300 elements, a
+/// 4335-character model name, 17 / 300 textures with embedded names) on top of the all-empty
+/// and the all-populated baseline; single small-record sites also with 65537 elements.
+struct ManySpace {
+    /// (base, sites at level many, element count)
+    cases: Vec<(u8, Vec<usize>, usize)>,
+    versions: Vec<(&'static str, M2Version, u32)>,
+}
+const HUGE_SITES: [&str; 16] = [
+    "global_sequences", "animation_lookup", "key_bone_lookup", "vertices", "materials", "bone_lookup_table", "texture_lookup_table", "texture_units",
+    "transparency_lookup_table", "texture_animation_lookup", "bounding_triangles", "bounding_vertices", "bounding_normals", "attachment_lookup_table", "camera_lookup_table", "textures",
+];
+impl ManySpace {
+    fn new() -> Self {
+        let capable: Vec<usize> = (0..gen::SITES.len()).filter(|s| gen::SITES[*s].name != "header_scalars").collect();
+        let mut cases = vec![];
+        for count in [17usize, 300] {
+            for base in 0..2u8 {
+                for (x, &a) in capable.iter().enumerate() {
+                    cases.push((base, vec![a], count));
+                    for &b in &capable[x + 1..] {
+                        cases.push((base, vec![a, b], count));
+                    }
+                }
+            }
+        }
+        for base in 0..2u8 {
+            for n in HUGE_SITES {
+                cases.push((base, vec![gen::site_index(n)], 65537));
+            }
+        }
+        let mut versions: Vec<(&'static str, M2Version, u32)> = gen::VERSIONS.iter().map(|(n, v)| (*n, *v, v.to_header_version())).collect();
+        versions.extend(gen::ALT_NUMBERS.iter().map(|(n, v, k)| (*n, *v, *k)));
+        ManySpace { cases, versions }
+    }
+    fn levels(&self, c: &(u8, Vec<usize>, usize)) -> Vec<u8> {
+        let mut lv: Vec<u8> = gen::SITES.iter().map(|s| if c.0 == 0 { 0 } else { s.full }).collect();
+        for &s in &c.1 {
+            lv[s] = match gen::SITES[s].name {
+                "name" => 4,
+                "textures" => 5,
+                _ => gen::LEVEL_MANY,
+            };
+        }
+        lv
+    }
+}
+impl Space for ManySpace {
+    fn len(&self) -> u64 {
+        (self.cases.len() * self.versions.len()) as u64
+    }
+    fn describe(&self, i: u64) -> Value {
+        let c = &self.cases[i as usize / self.versions.len()];
+        let v = self.versions[i as usize % self.versions.len()];
+        json!({"space": "m2many", "version": v.0, "header_number": v.2, "base": (["empty", "full"][c.0 as usize]), "many_sites": c.1.iter().map(|s| gen::SITES[*s].name).collect::<Vec<_>>(), "count": c.2})
+    }
+    fn run(&self, i: u64) -> CaseResult {
+        let c = &self.cases[i as usize / self.versions.len()];
+        let (vname, ver, vnum) = self.versions[i as usize % self.versions.len()];
+        gen::set_float_rotation(0);
+        gen::set_many(c.2);
+        let lv = self.levels(c);
+        let mut r = CaseResult::new();
+        r.key = format!("m2many/{vname}/{:?}/{}", lv, c.2);
+        r.nontrivial = true;
+        let m = gen::build_numbered(ver, vnum, &lv);
+        api_roundtrip(&mut r, &m, ver);
+        if r.outcome.is_empty() {
+            r.outcome = "held".into();
+        }
+        if !r.viols.is_empty() {
+            r.outcome.push_str("viol");
+        }
+        r
+    }
+    fn case_timeout(&self) -> u64 {
+        120
+    }
+}
+
 // ------------------------------------------------------------------ space "m2conv"
 
 struct ConvSpace {
@@ -449,6 +539,10 @@ fn conv_case(r: &mut CaseResult, src: &M2Model, from: M2Version, to: M2Version, 
         return;
     }
     let mut pc = parse_written!(r, &wc, "parse(write(convert(model)))", combos_missing);
+    if deep() {
+        let w2 = step!(r, m2_write(&pc), "write(parse(write(convert(model))))", false);
+        byte_diff(r, "converted model: second write is not byte-identical to the first", &wc, &w2);
+    }
     gen::strip_uncommon(&mut pc, a, b);
     exp.header.version = b;
     diff_sections(r, "conversion loses content representable in both versions", &cmp::sections(&exp, false), &cmp::sections(&pc, false));
@@ -458,6 +552,10 @@ fn conv_case(r: &mut CaseResult, src: &M2Model, from: M2Version, to: M2Version, 
 
 struct SeedSpace {
     subsets: Vec<Vec<&'static str>>,
+    /// (name, version, header number)
+    versions: Vec<(&'static str, M2Version, u32)>,
+    records: Vec<usize>,
+    keys: Vec<usize>,
 }
 impl SeedSpace {
     fn new(tier: Tier) -> Self {
@@ -481,28 +579,36 @@ impl SeedSpace {
             }
         }
         subsets.push(t.to_vec());
-        SeedSpace { subsets }
+        let mut versions: Vec<(&'static str, M2Version, u32)> = gen::VERSIONS.iter().map(|(n, v)| (*n, *v, v.to_header_version())).collect();
+        if tier == Tier::Thorough {
+            // header numbers away from the canonical one (the names stay those of the expansion)
+            versions.extend(gen::ALT_NUMBERS.iter().map(|(_, v, k)| (gen::VERSIONS.iter().find(|x| x.1 == *v).unwrap().0, *v, *k)));
+        }
+        SeedSpace { subsets, versions, records: tier.pick(vec![1, 3], vec![1, 3, 2, 5]), keys: tier.pick(vec![1, 3, 0], vec![1, 3, 0, 2, 8]) }
+    }
+    fn radices(&self) -> [u64; 5] {
+        [self.versions.len() as u64, self.records.len() as u64, self.keys.len() as u64, 3, self.subsets.len() as u64]
     }
     fn decode(&self, i: u64) -> (usize, usize, usize, usize, usize) {
-        let d = vcore::gen::mixed_radix(i, &[NV as u64, 2, 3, 3, self.subsets.len() as u64]);
-        (d[4] as usize, [1, 3][d[1] as usize], [1, 3, 0][d[2] as usize], d[3] as usize, d[0] as usize)
+        let d = vcore::gen::mixed_radix(i, &self.radices());
+        (d[4] as usize, self.records[d[1] as usize], self.keys[d[2] as usize], d[3] as usize, d[0] as usize)
     }
 }
 impl Space for SeedSpace {
     fn len(&self) -> u64 {
-        (self.subsets.len() * 18 * NV) as u64
+        self.radices().iter().product()
     }
     fn describe(&self, i: u64) -> Value {
         let (si, n, k, variant, v) = self.decode(i);
-        json!({"space": "seed", "version": gen::VERSIONS[v].0, "tracked_sections": self.subsets[si], "records": n, "keys": k, "variant": emit::VARIANTS[variant]})
+        json!({"space": "seed", "version": self.versions[v].0, "header_number": self.versions[v].2, "tracked_sections": self.subsets[si], "records": n, "keys": k, "variant": emit::VARIANTS[variant]})
     }
     fn run(&self, i: u64) -> CaseResult {
         let (si, n, k, variant, v) = self.decode(i);
         let mut r = CaseResult::new();
         r.key = format!("seed/{i}");
         r.nontrivial = !self.subsets[si].is_empty();
-        let ver = gen::VERSIONS[v].1;
-        let seed = emit::make_seed(ver.to_header_version(), &self.subsets[si], n, k, variant);
+        let ver = self.versions[v].1;
+        let seed = emit::make_seed(self.versions[v].2, &self.subsets[si], n, k, variant);
         seed_case(&mut r, &seed, ver);
         if r.outcome.is_empty() {
             r.outcome = "held".into();
@@ -565,7 +671,17 @@ impl Unjudged {
 /// ("<what>: section <s>: <component>"). Components / sections listed in `skip` are not judged
 /// (used for conversions of a seed whose plain round trip already lost them).
 fn keyframes_vs_seed(r: &mut CaseResult, what: &str, b: &[u8], h: &walker::Hdr, seed: &emit::Seed, src_ver: u32, skip: &Unjudged) -> Unjudged {
+    keyframes_vs_seed_via(r, what, b, h, seed, src_ver, skip, &[])
+}
+
+/// `chain`: header versions the model passed through between the seed and the file (conversion
+/// chains): what one of them cannot store (bone / event ranges from 264 on, embedded skin
+/// profiles from 264 on, the sub-mesh layout across 260) is not demanded.
+#[allow(clippy::too_many_arguments)]
+fn keyframes_vs_seed_via(r: &mut CaseResult, what: &str, b: &[u8], h: &walker::Hdr, seed: &emit::Seed, src_ver: u32, skip: &Unjudged, chain: &[u32]) -> Unjudged {
     let fv = h.version;
+    let via_wotlk = chain.iter().any(|v| *v > 263);
+    let via_other_submesh = chain.iter().any(|v| (*v < 260) != (src_ver < 260));
     let mut out = Unjudged::default();
     for (pos, sec) in FILE_ORDER.iter().enumerate() {
         if skip.from.map(|f| pos >= f).unwrap_or(false) {
@@ -583,7 +699,7 @@ fn keyframes_vs_seed(r: &mut CaseResult, what: &str, b: &[u8], h: &walker::Hdr, 
                             if gt.as_ref() != Some(wt) {
                                 bad.push(("timestamps", format!("event {i}: want {:?} got {:?}", wt, gt)));
                             }
-                            if src_ver <= 263 && fv <= 263 && gr.as_ref() != Some(wr) {
+                            if src_ver <= 263 && fv <= 263 && !via_wotlk && gr.as_ref() != Some(wr) {
                                 bad.push(("ranges", format!("event {i}: want {:?} got {:?}", wr, gr)));
                             }
                             if !bad.is_empty() {
@@ -596,14 +712,14 @@ fn keyframes_vs_seed(r: &mut CaseResult, what: &str, b: &[u8], h: &walker::Hdr, 
                 }
             }
             "views" => {
-                if seed.views.is_empty() || fv > 263 {
+                if seed.views.is_empty() || fv > 263 || via_wotlk {
                     continue;
                 }
                 match walker::views(b, h) {
                     Some(got) if got.len() == seed.views.len() => {
                         // the sub-mesh record has 32 bytes below header version 260 and 48 from 260 on:
                         // across that boundary only the number of records is comparable
-                        let same_sub = (src_ver < 260) == (fv < 260);
+                        let same_sub = (src_ver < 260) == (fv < 260) && !via_other_submesh;
                         let (sf, st) = (if src_ver < 260 { 32 } else { 48 }, if fv < 260 { 32 } else { 48 });
                         for (i, (g, w)) in got.iter().zip(seed.views.iter()).enumerate() {
                             let d = format!("embedded skin profile {i}");
@@ -643,7 +759,7 @@ fn keyframes_vs_seed(r: &mut CaseResult, what: &str, b: &[u8], h: &walker::Hdr, 
                     None => bad.push(("records unreadable", "record array outside file".into())),
                     Some(got) if got.len() != want.len() => bad.push(("record count", String::new())),
                     Some(got) => {
-                        let bone_ranges = sec != "bones" || (src_ver < 264 && fv < 264);
+                        let bone_ranges = sec != "bones" || (src_ver < 264 && fv < 264 && !via_wotlk);
                         'sec: for (i, (gr, wr)) in got.iter().zip(want.iter()).enumerate() {
                             for (j, (g, w)) in gr.iter().zip(wr.iter()).enumerate() {
                                 let d = format!("record {i} value {j}: want {} got {}", short(w), short(g));
@@ -722,6 +838,7 @@ fn seed_case(r: &mut CaseResult, seed: &emit::Seed, ver: M2Version) {
             t.viol(f.symptom, f.detail);
         }
         keyframes_vs_seed(&mut t, "seed", &s, &hs, seed, vnum, &Unjudged::default());
+        odd::subarrays_vs_seed(&mut t, "seed", &s, &hs, seed);
         assert!(t.viols.is_empty(), "emitter/walker self-check failed: {:?}", t.viols);
     }
     let p0 = match m2_parse(&s) {
@@ -747,7 +864,9 @@ fn seed_case(r: &mut CaseResult, seed: &emit::Seed, ver: M2Version) {
         return;
     }
     let lost = keyframes_vs_seed(r, "key frames not preserved by parse→write", &w1, &h1, seed, vnum, &Unjudged::default());
-    if lost.clean() {
+    let n_sub = r.viols.len();
+    odd::subarrays_vs_seed(r, "emitter content not preserved by parse→write", &w1, &h1, seed);
+    if lost.clean() && r.viols.len() == n_sub {
         let p1 = step!(r, m2_parse(&w1), "parse(write(parse(seed)))", false);
         if diff_sections(r, "parse(write(p)) differs from p = parse(seed)", &cmp::sections(&p0, true), &cmp::sections(&p1, true)) == 0 {
             let w2 = step!(r, m2_write(&p1), "write(parse(write(parse(seed))))", false);
@@ -770,12 +889,13 @@ fn seed_case(r: &mut CaseResult, seed: &emit::Seed, ver: M2Version) {
     }
 }
 
-fn conv_seed(r: &mut CaseResult, p0: &M2Model, seed: &emit::Seed, _from: M2Version, to: M2Version, w1: &[u8], lost: &Unjudged) {
+fn conv_seed(r: &mut CaseResult, p0: &M2Model, seed: &emit::Seed, from: M2Version, to: M2Version, w1: &[u8], lost: &Unjudged) {
     let a = seed.version;
     let b = to.to_header_version();
     let c = step!(r, call(|| p0.convert(to).map_err(|e| e.to_string())), "convert(parse(seed))", true);
     let wc = step!(r, m2_write(&c), "write(convert(parse(seed)))", true);
-    if a == b {
+    // (a header number inside the range of the target expansion: conversion is the identity)
+    if a == b || from == to {
         byte_diff(r, "conversion of a parsed seed to the same header version changes the written bytes", w1, &wc);
         return;
     }
@@ -796,18 +916,29 @@ fn conv_seed(r: &mut CaseResult, p0: &M2Model, seed: &emit::Seed, _from: M2Versi
     if !keyframes_vs_seed(r, "conversion loses key frames", &wc, &hc, seed, a, lost).comps.is_empty() {
         return;
     }
-    let _pc = step!(r, m2_parse(&wc), "parse(write(convert(parse(seed))))", false);
+    let pc = step!(r, m2_parse(&wc), "parse(write(convert(parse(seed))))", false);
+    if deep() {
+        // the converted object is itself a fixed point of write→parse→write
+        let w2 = step!(r, m2_write(&pc), "write(parse(write(convert(parse(seed)))))", false);
+        byte_diff(r, "converted seed: second write is not byte-identical to the first", &wc, &w2);
+    }
 }
 
 // ------------------------------------------------------------------ driver
 
 fn build(name: &str, _arg: &str, tier: Tier) -> Box<dyn Space> {
     vcore::alloc::HARD_CAP.store(1usize << 30, std::sync::atomic::Ordering::Relaxed);
+    DEEP.store(tier == Tier::Thorough, std::sync::atomic::Ordering::Relaxed);
     match name {
         "m2" => Box::new(M2Space::new(tier.pick(2, 3), tier.pick(&[0][..], &[0, 4, 7][..]))),
+        "m2many" => Box::new(ManySpace::new()),
         "m2conv" => Box::new(ConvSpace { models: enum_models(tier.pick(1, 2)), rotations: tier.pick(vec![0], vec![0, 4]) }),
         "seed" => Box::new(SeedSpace::new(tier)),
         "share" => Box::new(share::ShareSpace::new(tier)),
+        "seedchain" => Box::new(chain::SeedChainSpace::new()),
+        "edit" => Box::new(chain::EditSpace::new()),
+        "m2chain" => Box::new(chain::M2ChainSpace::new()),
+        "odd" => Box::new(odd::OddSpace::new()),
         "skin" => Box::new(skinfile::SkinSpace::new(tier)),
         "anim" => Box::new(animfile::AnimSpace::new(tier)),
         _ => panic!("space {name}"),
